@@ -88,7 +88,9 @@ def hosvd(  # noqa: PLR0912,PLR0913,PLR0915
     if verbosity > 0:
         print("Computing HOSVD...\n")
 
-    normxsqr = (input_tensor**2).collapse()
+    # Accumulate the squares in floating point: with integer storage (e.g. int8
+    # counts) the element-wise square would wrap around
+    normxsqr = float(np.sum(np.square(input_tensor.data, dtype=float)))
     eigsumthresh = ((tol**2) * normxsqr) / d
 
     if verbosity > 2:
